@@ -82,7 +82,7 @@ def main():
             fired[pr] = {"exit": rc, "violations": len(v), "reports": keys[:5], "undecided": und[:3]}
         res["checks"] = fired
     finally:
-        sh("git checkout -- . && git clean -fdq go/mcap go/ros", cwd="/repo")
+        sh("git reset -q --hard HEAD && git clean -fdq go/mcap go/ros", cwd="/repo")
     caught = [p for p, f in res.get("checks", {}).items() if f["exit"] == 1]
     res["caught_by"] = caught
     print(json.dumps(res, indent=1))
